@@ -142,9 +142,17 @@ class Ctx(object):
         phases = [Phase.explicit, Phase.generate] + ([Phase.shrink] if shrink else [])
         rounds = 0
         remaining = max_examples
+        # the budget is a case count; it is spent in up to four Hypothesis runs so that the wall-clock safety net
+        # (WALL_CAP -> budget_exhausted, inconclusive but passing) can take effect between them
+        chunk = max(25, -(-max_examples // 4))
+        part = 0
         while rounds <= max_buckets and remaining > 0:
+            if self.out_of_time():
+                break
             last = {}
             counter = [0]
+            this_run = min(chunk, remaining)
+            part += 1
 
             def make(_last, _counter):
                 def wrapped(case):
@@ -163,15 +171,16 @@ class Ctx(object):
                 return wrapped
             wrapped = make(last, counter)
 
-            st = settings(max_examples=remaining, database=None, deadline=None, phases=phases,
+            st = settings(max_examples=this_run, database=None, deadline=None, phases=phases,
                           report_multiple_bugs=False, derandomize=False, print_blob=False,
                           suppress_health_check=[HealthCheck.too_slow, HealthCheck.data_too_large,
                                                  HealthCheck.large_base_example],
                           verbosity=hypothesis.Verbosity.quiet)
-            test = hypothesis.seed(self.seed_for('%s/%d' % (name, rounds)))(st(given(strategy)(wrapped)))
+            test = hypothesis.seed(self.seed_for('%s/%d/%d' % (name, rounds, part)))(st(given(strategy)(wrapped)))
             try:
                 test()
-                break
+                remaining = max(0, remaining - max(counter[0], this_run))
+                continue
             except Discrepancy:
                 d = last['d']
                 self.violation(d.bucket, d.message, d.case)
